@@ -286,6 +286,11 @@ func Run(param *csr.ReqParam, handlers []gensign.Handler, signer csr.Signer) (er
 
 // RunCtx is Run with the caller's request context.
 func RunCtx(ctx context.Context, param *csr.ReqParam, handlers []gensign.Handler, signer csr.Signer) (err error, escaped string) {
+	return RunSlow(ctx, param, handlers, signer, 0)
+}
+
+// RunSlow is RunCtx for runs in which the harness itself delays something by up to scripted: the watchdog waits that much longer.
+func RunSlow(ctx context.Context, param *csr.ReqParam, handlers []gensign.Handler, signer csr.Signer, scripted time.Duration) (err error, escaped string) {
 	type res struct {
 		err     error
 		escaped string
@@ -308,7 +313,7 @@ func RunCtx(ctx context.Context, param *csr.ReqParam, handlers []gensign.Handler
 	select {
 	case x := <-ch:
 		return x.err, x.escaped
-	case <-time.After(ev.OpTimeout()):
+	case <-time.After(ev.OpTimeout() + scripted):
 		return nil, Hung
 	}
 }
